@@ -240,7 +240,9 @@ pub fn normalise(files: &[FileAttestation]) -> Vec<FileAttestation> {
 /// entries `hash SP ranges`, ranges ascending by start, no spaces), exactly one divider line
 /// before a JSON object. Returns the first violated rule.
 fn grammar_violation(text: &str, log: &AuthorshipLog) -> Option<String> {
-    let Some(div_at) = text.find("---\n{") else {
+    // the divider is a LINE equal to `---` (a path line may end in `---` and the next path may start with `{`)
+    let div_at = if text.starts_with("---\n{") { Some(0) } else { text.find("\n---\n{").map(|i| i + 1) };
+    let Some(div_at) = div_at else {
         return Some("no divider followed by a JSON object".into());
     };
     let head = &text[..div_at];
